@@ -2,7 +2,8 @@
 
 Correspondence K1 of store/fetch through every accessor against DC.Model.Disk /
 DC.Model.Cache, for a value alphabet x lengths around disk_min_file_size x
-thresholds x pickle protocols x Disk/JSONDisk; theorems: lean/properties.json."""
+thresholds x pickle protocols x Disk/JSONDisk (lone surrogates, U+FEFF, NUL,
+subclass instances included); theorems: lean/properties.json."""
 import os
 
 import gen
